@@ -38,6 +38,8 @@ type errRender struct {
 	doc      *errDoc
 	nlWeight int
 	pending  bool // an invalid literal was written: the next delimiter's line is accepted too
+	// wideBlanks: blanks of several bytes between tokens (the probe pass and the real pass use the same setting)
+	wideBlanks bool
 }
 
 // delim writes a ',' ']' or '}' and, right after an injected literal, records its line.
@@ -49,11 +51,30 @@ func (e *errRender) delim(ch byte) {
 	e.b.WriteByte(ch)
 }
 
-var badLiterals = []string{"tru", "nul", "@", "1..2", "x", "fals", "nill", "1e", "--1", "TRUE1", "0x", "1.2.3", "abc"}
-var strayChars = []string{"@", "x", "2", ":", "]", "?", "%"}
+var badLiterals = []string{"tru", "nul", "@", "1..2", "x", "fals", "nill", "1e", "--1", "TRUE1", "0x", "1.2.3", "abc",
+	// invalid literals with characters of two, three and four bytes (byte offsets and character counts drift apart)
+	"tr" + string(rune(0xfc)), "nul" + string(rune(0xe9)), "fals" + string(rune(0x20ac)), "x" + string(rune(0x1f600)), string(rune(0xe9)), string(rune(0xf1)) + "ul", "nu" + string(rune(0x3bb)) + string(rune(0x3bb))}
+var strayChars = []string{"@", "x", "2", ":", "]", "?", "%", string(rune(0xe9)), string(rune(0x20ac)), string(rune(0x1f600))}
+
+// quoteForLines renders a string or key literal; now and then with pieces a lenient parser takes inside a literal and
+// that contain line breaks: a raw LF, a backslash directly followed by a raw LF, CR LF (they all count as line breaks of the
+// input, the writer's own line counter sees them in the text)
+func (e *errRender) quoteForLines(s string) string {
+	q := refjson.Quote(s)
+	if !e.r.Chance(1, 6) {
+		return q
+	}
+	piece := []string{"\n", "\\\n", "\r\n", "\\\n\\\n", "x\\\ny", "\n\n"}[e.r.Intn(6)]
+	return q[:len(q)-1] + piece + "\""
+}
 
 func (e *errRender) ws() {
 	n := e.r.Intn(3)
+	if e.wideBlanks && e.r.Chance(1, 10) {
+		// a blank of several bytes (where the parser tolerates it), followed by ASCII blanks and a line break
+		e.b.WriteString(string(rune([]int{0xa0, 0x2028, 0x3000, 0x85}[e.r.Intn(4)])))
+		e.b.WriteString([]string{" \n", "\t\n", " ", " \t\n"}[e.r.Intn(4)])
+	}
 	for i := 0; i < n; i++ {
 		if e.r.Intn(10) < e.nlWeight {
 			e.b.WriteByte('\n')
@@ -84,11 +105,17 @@ func (e *errRender) badLiteral() {
 	}
 	e.doc.Token = tok
 	e.doc.Injected = true
-	for i := 0; i < len(tok); i++ {
+	wide := false
+	for i, ch := range tok {
 		if i > 0 && e.r.Chance(1, 6) {
 			e.ws()
 		}
-		e.b.WriteByte(tok[i])
+		e.b.WriteRune(ch)
+		wide = ch > 0x7f
+	}
+	if wide && e.r.Bool() {
+		// a character of several bytes, then an ASCII blank, then a line break within the next few bytes
+		e.b.WriteString([]string{" \n", "\t\n", " \t\n", " \n\n"}[e.r.Intn(4)])
 	}
 	e.pending = true
 }
@@ -102,6 +129,9 @@ func (e *errRender) stray() {
 	e.doc.Injected = true
 	e.doc.Lines[e.line()] = true
 	e.b.WriteString(tok)
+	if tok[0] > 0x7f && e.r.Bool() {
+		e.b.WriteString([]string{" \n", "\t\n", " \t\n"}[e.r.Intn(3)])
+	}
 }
 
 func (e *errRender) value(s *spec.Spec) {
@@ -134,7 +164,7 @@ func (e *errRender) value(s *spec.Spec) {
 				e.stray()
 				e.ws()
 			}
-			e.b.WriteString(refjson.Quote(k))
+			e.b.WriteString(e.quoteForLines(k))
 			e.ws()
 			if e.site("K3") {
 				e.stray()
@@ -164,7 +194,7 @@ func (e *errRender) value(s *spec.Spec) {
 		case spec.Float:
 			e.b.WriteString(strconv.FormatFloat(s.F, 'e', -1, 64))
 		case spec.Str:
-			e.b.WriteString(refjson.Quote(s.S))
+			e.b.WriteString(e.quoteForLines(s.S))
 		}
 	}
 }
@@ -231,7 +261,8 @@ func genErrDoc(r *rng.R, root spec.Kind) *errDoc {
 	kind := []string{"K1", "K1", "K2", "K3", "K4"}[r.Intn(5)]
 	nlw := []int{0, 2, 5, 9}[r.Intn(4)]
 	// pass 1: count the candidate sites of this kind
-	probe := &errRender{r: r.Fork(), kind: kind, target: -1, doc: &errDoc{Lines: map[int]bool{}}, nlWeight: nlw}
+	wide := r.Chance(1, 4)
+	probe := &errRender{r: r.Fork(), kind: kind, target: -1, doc: &errDoc{Lines: map[int]bool{}}, nlWeight: nlw, wideBlanks: wide}
 	probe.value(tree)
 	if probe.seen == 0 {
 		return nil
@@ -244,7 +275,7 @@ func genErrDoc(r *rng.R, root spec.Kind) *errDoc {
 		return nil
 	}
 	doc := &errDoc{Kind: kind, Lines: map[int]bool{}}
-	e := &errRender{r: r.Fork(), kind: kind, target: target, doc: doc, nlWeight: nlw}
+	e := &errRender{r: r.Fork(), kind: kind, target: target, doc: doc, nlWeight: nlw, wideBlanks: wide}
 	// preamble before the root bracket (free of that bracket), possibly with newlines
 	if r.Chance(1, 2) {
 		pre := []string{"// header\n", "\n\n", "garbage text\nmore\n", "  \t", "x = ", "\r\n\r\n", "# a ] b } c\n", strings.Repeat("line\n", 70000), strings.Repeat("\n", 300), "say \"hello\nworld\" twice\n", "\"\n\n\"\n", "'q\n' \"a\nb\nc\" \"\n", "\"unpaired\nquote\n"}[r.Intn(13)]
